@@ -1386,8 +1386,7 @@ def evaluate__json_to_xml(self: XPathFunction, context: ta.ContextType = None) \
             if not escape:
                 k = ''.join(x if is_xml_codepoint(ord(x))
                             else fallback(rf'\u{ord(x):04X}', context=context) for x in k)
-                k = k.replace('"', '&#34;')
-                attrib = {'key': k}
+                attrib = {'key': k}  # the quotation mark is escaped by the serializer
             else:
                 k = escape_string(k)
                 if '\\' in k:
